@@ -12,21 +12,25 @@
  *  SA   sendAsync: the completion callback runs exactly once iff given, after the enqueue, with the enqueue verdict and the length
  *  PQ1  process(): payloads of one session reach doSend in accepted order, contiguous                       (asserted INSIDE the doSend stub)
  *  PQ2  process(): every payload that was in the queue has been handed to doSend exactly once when it returns (G_handed == end of the queued positions)
+ *  PQ-C every Connect command taken from the queue is handed to doConnect exactly once, whatever `_running` says (witness connect id GCSID; checked at the
+ *       end of its dispatch iteration and again when process() returns): connect() already returned that id, so it must get onConnect or onClose (C02 "never
+ *       none", C05 "every in-flight call returns a definite result")
  *  PQ3  process() takes the whole queue under the mutex (swap) and leaves _cmds empty; later arrivals wait for the next round
  *  PQ4  handlers run with _cmdMutex released; an exception of a handler (doConnect / doAddListener) is caught per command: the error callback runs,
  *       a pending listener promise is failed, the loop goes on with the NEXT command (the order of the remaining sends is unaffected) */
 static void world(TcpEngine *self)
 {
   IORA_TRUE = 1; iora_exc = EXC_NONE; iora_exc_caught = 0;
+  GCSID = nondet_u64(); G_doconnect_w_calls = 0; G_iter_is_wc = 0; G_iter_base = 0; G_hasc0 = 0;
   GSID = nondet_u64(); G_accepted = nondet_size_t(); G_handed = nondet_size_t(); G_qend = 0;
   G_push_calls = 0; G_dosend_calls = 0; G_dosend_w_calls = 0; G_wake_calls = 0; G_onerror_calls = 0; G_scb_calls = 0; G_closeNow_calls = 0; G_doconnect_calls = 0; G_dolisten_calls = 0; G_pbuf_filled = 0;
   self->_cmdMutex.held = 0; self->_cbMutex.held = 0; self->_cmdsClosed = nondet_bool(); self->_running = nondet_bool();
   self->_cbs.onError = nondet_bool(); self->_cbs.onClose = nondet_bool(); self->_cbs.onData = nondet_bool(); self->_cbs.onAccept = nondet_bool(); self->_cbs.onConnect = nondet_bool();
-  self->_cmds.guard = &self->_cmdMutex;
+  self->_cmds.guard = &self->_cmdMutex; self->_cmds.has_c = nondet_bool();
   self->_sessions.has = nondet_bool(); self->_sessions.val = malloc(sizeof(Session)); self->_sessions.other = malloc(sizeof(Session));      /* the Close case looks sessions up (unit tcp_close) */
   __CPROVER_assume(self->_sessions.val != NULL && self->_sessions.other != NULL); iora_canon_session(self->_sessions.val); iora_canon_session(self->_sessions.other); iora_sessmap_GKEY = nondet_u64();
   /* the queue: any number of commands; the witness session's queued payloads tile [G_handed, G_accepted) */
-  __CPROVER_assume(self->_cmds.n < ((size_t)1 << 60) && self->_cmds.w.n <= self->_cmds.n && G_handed <= G_accepted && G_accepted < ((size_t)1 << 60) && QSTREAM(self->_cmds.w, G_accepted));
+  __CPROVER_assume(self->_cmds.n < ((size_t)1 << 60) && self->_cmds.w.n + (self->_cmds.has_c ? 1u : 0u) <= self->_cmds.n && G_handed <= G_accepted && G_accepted < ((size_t)1 << 60) && QSTREAM(self->_cmds.w, G_accepted));
 }
 
 void h_send(void)
@@ -70,10 +74,13 @@ void h_process(void)
 {
   TcpEngine E; TcpEngine *self = &E; world(self);
   G_qend = G_accepted;                     /* everything accepted so far is in the queue (or already handed) */
+  G_hasc0 = E._cmds.has_c;
   TcpEngine_process(self);
   IORA_CANARY("h_process: returns");
   __CPROVER_assert(G_handed == G_qend, "PQ2 every payload that was queued for the session has been handed to doSend, exactly once, in order");
-  __CPROVER_assert(E._cmds.n == 0 && E._cmds.w.n == 0, "PQ3 the whole queue was taken; _cmds is empty for the next round");
+  __CPROVER_assert(G_doconnect_w_calls == (G_hasc0 ? 1u : 0u), "PQ-C every Connect command taken from the queue has been handed to doConnect exactly once when process() returns, whatever _running says");
+  if (G_hasc0) { IORA_CANARY("h_process: a queued connect carried the witness id"); }
+  __CPROVER_assert(E._cmds.n == 0 && E._cmds.w.n == 0 && !E._cmds.has_c, "PQ3 the whole queue was taken; _cmds is empty for the next round");
   __CPROVER_assert(!self->_cmdMutex.held && !self->_cbMutex.held && iora_exc == EXC_NONE, "PQ4 mutexes released, no exception escapes");
   if (G_dosend_w_calls > 0) { IORA_CANARY("h_process: payloads of the witness session handed over"); }
   if (G_onerror_calls > 0) { IORA_CANARY("h_process: a handler threw"); }
